@@ -272,6 +272,12 @@ func (r *RigS) onRegistration(st *SimStream) {
 			// an earlier resume of this stream dropped these very messages through the time filter; the stream went on, the
 			// checkpoint passed them, and this resume starts behind them
 			cls = "_after_restamped_time_skip"
+		} else if r.st.StaleAck[fmt.Sprintf("%d|%d|%d", tgt, st.Coll, st.Shard)] {
+			// the checkpoint this resume starts from had been moved past these messages by a pack of an earlier registration
+			// that was acknowledged after its task had been resumed (KF stale-pack-after-resume; checkpoint_ahead reports it)
+			cls = "_stale_pack_after_resume"
+		} else if r.leakedRegistration(owner, tgt, st.Coll, st.Shard) {
+			cls = "_registration_in_flight_at_stop"
 		}
 		r.s.Violate("C05", "resume_skips_unacked"+cls, "stream %s of task %s registered at msg id %d / ts %d skips messages (tags %v) that the downstream never acknowledged", st.Key(), owner, st.SeekSeq, st.SeekTs, skipped)
 	}
@@ -388,12 +394,33 @@ func (r *RigS) droppedAtSource(coll int64) bool {
 // pause / delete of its task was in progress (KF registration-in-flight-at-stop): that stream is not stopped, keeps delivering
 // and its packs are written once the task runs again.
 func (r *RigS) leakedRegistration(owner string, tgt int, coll int64, shard int) bool {
+	if r.leakedAtPause[fmt.Sprintf("%d|%d|%d", tgt, coll, shard)] {
+		return true
+	}
 	for _, st := range r.mq.All {
 		if st.Coll != coll || st.Shard != shard || st.PCh == replicateChan || r.targetOfStream(st) != tgt {
 			continue
 		}
 		for _, rec := range r.st.OpLog {
 			if (rec.K == "pause" || rec.K == "delete") && rec.Task == owner && rec.Code == 200 && rec.Inc == r.plan.Incarnation && st.RegStep >= rec.Issued && st.RegStep <= rec.Step {
+				return true
+			}
+		}
+		// the same race when the stop is the clean-up of a collection start that failed (the message queue refused another
+		// shard's connection) and the pause the task then makes on its own: the registration completed at or after the
+		// refusal, the task was paused by a failure afterwards, and it had not been resumed in between
+		for _, f := range r.connFailSteps {
+			at, paused := r.bgWriteStep[owner]
+			if !paused || at < f || st.RegStep < f {
+				continue
+			}
+			resumedBetween := false
+			for _, rec := range r.st.OpLog {
+				if rec.K == "resume" && rec.Task == owner && rec.Inc == r.plan.Incarnation && rec.Issued >= f && rec.Issued <= st.RegStep {
+					resumedBetween = true
+				}
+			}
+			if !resumedBetween {
 				return true
 			}
 		}
@@ -1615,6 +1642,23 @@ func (r *RigS) recoveryPhase(drain func()) {
 		return
 	}
 	s.Probe("recovery_phase")
+	// a stream that is registered although its task is Paused has escaped the stop (its registration was in flight when the
+	// collection start failed or the task was paused: KF registration-in-flight-at-stop); it keeps delivering, its packs are
+	// thrown away while the task does not run, and it goes on from where it is once the task runs again
+	r.leakedAtPause = map[string]bool{}
+	for _, st := range r.mq.All {
+		if st.PCh == replicateChan || st.Closed {
+			continue
+		}
+		tgt := r.targetOfStream(st)
+		if tgt < 0 {
+			continue
+		}
+		if owner := r.ownerOf(tgt, st.Coll); owner != "" && contains(ids, owner) {
+			r.leakedAtPause[fmt.Sprintf("%d|%d|%d", tgt, st.Coll, st.Shard)] = true
+			s.Probe("recovery_stream_of_paused_task")
+		}
+	}
 	r.recovered = map[string]bool{}
 	for _, id := range ids {
 		r.sc.Ops = append(r.sc.Ops, SOp{K: "resume", Task: id})
@@ -1714,6 +1758,9 @@ func (r *RigS) recoveryPhase(drain func()) {
 		}
 		if cls == "" {
 			cls = r.classOf(tasks, r.tasksOn(tgt)...)
+		}
+		if cls == "" && r.leakedRegistration(owner, tgt, coll, shard) {
+			cls = "_registration_in_flight_at_stop"
 		}
 		if r.st.StaleAck[fmt.Sprintf("%d|%d|%d", tgt, coll, shard)] {
 			cls = "_stale_pack_after_resume"
